@@ -280,7 +280,7 @@ class World:
 SYNC_FLAVOURS = ("list", "tuple", "getitem", "sync_iter", "seq_abc", "set_abc")
 CONTAINER_FLAVOURS = ("list", "tuple", "getitem", "seq_abc", "set_abc")  # iterable more than once
 ASYNC_FLAVOURS = ("agen", "aiter_cls", "aiter_noclose", "aiterable", "aiter_full")
-EXTRA_FLAVOURS = ("aiter_throwonly", "aiter_proxy")  # only used where a check asks for it
+EXTRA_FLAVOURS = ("aiter_throwonly", "aiter_proxy", "aiter_sendonly")  # only used where a check asks for it
 ALL_FLAVOURS = SYNC_FLAVOURS + ASYNC_FLAVOURS
 LOGGING_FLAVOURS = ("getitem", "sync_iter", "seq_abc", "set_abc") + ASYNC_FLAVOURS
 
@@ -761,6 +761,16 @@ class AIterFull(AIterCls):
         raise typ() if val is None else val
 
 
+class AIterSendOnly(AIterNoClose):
+    """Class based async iterator with ``asend`` - and neither ``athrow`` nor ``aclose``"""
+
+    __slots__ = ()
+
+    async def asend(self, value):
+        self.src.world.log.append(("asend", self.src.name, ident(value)))
+        return await self.__anext__()
+
+
 class AIterThrowOnly(AIterCls):
     """Class based async iterator with ``aclose`` and ``athrow`` but no ``asend``"""
 
@@ -852,6 +862,8 @@ def make_async_source(world, plan):
         obj = AIterThrowOnly(src)
     elif fl == "aiter_proxy":
         obj = AIterProxy(src)
+    elif fl == "aiter_sendonly":
+        obj = AIterSendOnly(src)
     elif fl == "aiterable":
         obj = AIterable(src)
     else:  # pragma: no cover
